@@ -29,7 +29,7 @@ def plan(tier, seed):
     specs = [(1, 1), (2, 1), (3, 1), (4, 0)] if tier == 'quick' else [(1, 2), (2, 2), (3, 1), (4, 1), (5, 0)]
     dev = 2 if tier == 'quick' else 3
     return {
-        'chunks': sweep.shape_chunks(specs, per_chunk=2, big=True, dev=dev),
+        'chunks': sweep.shape_chunks(specs, per_chunk=2, big=True, dev=dev) + [{'kind': 'cli-directory'}],
         'rule': 'every hierarchy over n tokens (<= u unary, discontinuous included) built through the tree API x '
                 'variants {plain words; rotations of the special alphabet %r incl. XML-special, non-ASCII, '
                 'parenthesis and tab-stop-length words; lemma / morph / edge / all three = None} x 5 writers x every '
@@ -38,7 +38,8 @@ def plan(tier, seed):
                 'None field, a gap or at least one option' % (SPECIAL, dev),
         'bound': ', '.join('n=%d:u<=%d' % s for s in specs) + '; option subsets of size <= %d' % dev,
         'exhaustive': True,
-        'assumptions': ['head/split flags are present on every node when the corresponding option is on (DESIGN D5)',
+        'assumptions': ['directory mode of `treetools transform` (files named like split parts, converted twice) must leave one complete, current output file per source file',
+                        'head/split flags are present on every node when the corresponding option is on (DESIGN D5)',
                         'decoration options are not combined with the TIGER-XML writer (it has native edge labels)',
                         'words contain no whitespace and do not look like #NNN'],
     }
@@ -263,11 +264,30 @@ def cmp_one(bad, got, sid, root, toks, fields, edges):
 
 
 def check_case(case):
+    if case.get('dir'):
+        from .c03 import check_directory
+        with quiet():
+            return check_directory(case['a'], case['b'], case['src'], case['dest'])
     with quiet():
         return check_one(case['mt'], case['none'], case['fmt'], case['opts'], case.get('order'))
 
 
 def run_chunk(chunk):
+    if chunk.get('kind') == 'cli-directory':
+        # a directory of files through the command line (names as `--split` gives them; a second run over the same directory)
+        from .c03 import check_directory, pool
+        res = Result()
+        P = pool(False)
+        with quiet():
+            for src, dest in [('export3', 'export3'), ('export4', 'export4'), ('export3', 'tigerxml'), ('export3', 'discobrackets')]:
+                vs = check_directory([m.to_json() for m in P[:2]], [m.to_json() for m in P[2:4]], src, dest)
+                res.evals += 1
+                res.nontrivial += 1
+                res.outcome(('cli-directory', src, dest, len(vs)))
+                for v in vs:
+                    res.violation(v['kind'], v['where'], v['case'], v['detail'], v['what'])
+        res.sample({'cli': 'treetools transform DIR ignored --src-format S --dest-format D', 'files': ['part.0', 'part.1']})
+        return res
     res = Result()
     with quiet():
         vi = chunk['lo']
